@@ -6,7 +6,7 @@
 (* state, which - like the real engine - persists between calls.                                *)
 EXTENDS ForwardEngine, Json
 
-CONSTANTS MaxRules, MaxOps, MaxC, Times
+CONSTANTS RuleIdx, MaxRules, MaxOps, MaxC, Times
 
 Kp == <<"p", "k">>
 Lit(n) == <<"n", IntV(n)>>
@@ -50,10 +50,17 @@ Rules(a) == [i \in DOMAIN a |-> RuleTable[a[i]]]
 Init == /\ added = <<>> /\ nops = 0 /\ last = [op |-> "init"]
         /\ st = [St0([p \in Paths |-> Absent], <<>>) EXCEPT !.en = <<>>]
 
-AddRule(r) == /\ Len(added) < MaxRules /\ \A i \in DOMAIN added : added[i] # r
+AllRules == DOMAIN RuleTable
+SomeRules == {1, 2, 7}            \* inc, once (no-loop), lock (lock-on-active, group G1): the deep remove/re-add graph
+AddRule(r) == /\ r \in RuleIdx /\ Len(added) < MaxRules /\ \A i \in DOMAIN added : added[i] # r
               /\ added' = Append(added, r) /\ st' = [st EXCEPT !.en = Append(st.en, TRUE)]
               /\ last' = [op |-> "addrule", rule |-> RuleTable[r]]
-SetFact(p, v) == /\ st.facts[p] # v /\ st' = [st EXCEPT !.facts = [st.facts EXCEPT ![p] = v]] /\ UNCHANGED added
+(* KnowledgeBase::remove_rule between executes: the rule list shrinks; what the engine remembers by NAME (no-loop set, *)
+(* lock-on-active records) is not pruned, exactly as the code keeps it                                              *)
+Drop(s, i) == SubSeq(s, 1, i - 1) \o SubSeq(s, i + 1, Len(s))
+RemoveRule(i) == /\ i \in DOMAIN added /\ added' = Drop(added, i) /\ st' = [st EXCEPT !.en = Drop(st.en, i)]
+                 /\ last' = [op |-> "rmrule", name |-> RuleTable[added[i]].name]
+SetFact(p, v) == /\ (p = "k" \/ RuleIdx = AllRules) /\ st.facts[p] # v /\ st' = [st EXCEPT !.facts = [st.facts EXCEPT ![p] = v]] /\ UNCHANGED added
                  /\ last' = [op |-> "setfact", p |-> p, v |-> v]
 FocusOp(g) == /\ st' = Focus(st, g) /\ UNCHANGED added /\ last' = [op |-> "focus", g |-> g]
 PopOp == /\ st' = PopFocus(st) /\ UNCHANGED added /\ last' = [op |-> "pop"]
@@ -67,6 +74,7 @@ Next == /\ nops' = nops + 1
         /\ \/ \E r \in DOMAIN RuleTable : AddRule(r)
            \/ SetFact("k", IntV(0)) \/ SetFact("k", IntV(2)) \/ SetFact("k", NumV(10))
            \/ SetFact("A.x", V("str", NoNum, <<97>>, <<>>)) \/ SetFact("A.x", IntV(1)) \/ SetFact("A.y", IntV(3))
+           \/ \E i \in 1..MaxRules : RemoveRule(i)
            \/ FocusOp("G1") \/ FocusOp("MAIN") \/ PopOp \/ ResetNL
            \/ \E t \in Times : ExecOp(t)
 Spec == Init /\ [][Next]_vars
